@@ -128,19 +128,21 @@ def bounds(tier):
         "assemble": {"nA": 3, "nB": 3, "offset": 4, "gap": len(GAPS), "normal": len(NORMALS), "rotation": len(ROTS),
                      "motion_in": 2, "modes": ["jit", "batch%d" % LSET_BATCH]},
         "levelset": {"obstacle": len(OBSTACLES), "quad_degree": 3, "field": len(FIELDS), "depth": len(DEPTHS),
-                     "stiffness": len(STIFF), "edges": len(EDGESETS), "modes": ["eager", "batch%d" % LSET_BATCH]},
-        "contact": {"shift": 4, "depth": len(DEPTHS), "maxNeighbors": 3, "quad_degree": 2, "modes": ["eager"]},
+                     "stiffness": len(STIFF), "edges": len(EDGESETS),
+                     "modes": ["jit", "batch%d" % LSET_BATCH, "eager on field=rigid x edges=face"]},
+        "contact": {"shift": 4, "depth": len(DEPTHS), "maxNeighbors": 3, "quad_degree": 2, "tilt": 2,
+                    "modes": ["jit", "eager on shift=0.3 x tilt=0"]},
     }
 
 
 def groups(tier, seed):
+    # every group runs in a fresh worker process: everything sharing one compilation stays in one group
     gs = []
     for sm, _ in _smoothings(tier):
-        for ra, _ in REL_ANGLES:
-            for nk in NORMALS:
-                for gl, _ in GAPS:
-                    gs.append({"kind": "mortar", "name": "mortar-l%s-a%s-%s-g%s" % (sm, ra, nk, gl),
-                               "smoothing": sm, "rel_angle": ra, "normal": nk, "gap": gl})
+        for nk in NORMALS:
+            for gl, _ in GAPS:
+                gs.append({"kind": "mortar", "name": "mortar-l%s-%s-g%s" % (sm, nk, gl),
+                           "smoothing": sm, "normal": nk, "gap": gl})
     for nA in (3, 2, 1):
         for nB in (3, 2, 1):
             for nk in NORMALS:
@@ -152,11 +154,10 @@ def groups(tier, seed):
     for ob in OBSTACLES:
         for deg in (1, 2, 4):
             gs.append({"kind": "levelset", "name": "levelset-%s-q%d" % (ob, deg), "obstacle": ob, "degree": deg})
-    for sl, _ in SEG_AXIS:
-        for al in ANGLES:
-            gs.append({"kind": "cpp", "name": "cpp-%s-%s" % (sl, al), "segment": sl, "angle": al})
-    for sh in ("0", "0.3", "0.8", "1.5"):
-        gs.append({"kind": "contact", "name": "contact-shift%s" % sh, "shift": sh})
+    for mn in ("1", "2", "3"):
+        gs.append({"kind": "contact", "name": "contact-maxNeighbors%s" % mn, "maxNeighbors": mn})
+    for al in ANGLES:
+        gs.append({"kind": "cpp", "name": "cpp-angle%s" % al, "angle": al})
     return gs
 
 
@@ -210,6 +211,11 @@ def _t_class(t):
 
 
 def _run_cpp(g, tier, seed, rec):
+    for sl, _ in SEG_AXIS:
+        _run_cpp_one(dict(g, segment=sl), tier, seed, rec)
+
+
+def _run_cpp_one(g, tier, seed, rec):
     import jax
     import jax.numpy as jnp
     from optimism.contact import EdgeCpp
@@ -484,6 +490,11 @@ def _mortar_branches(rec, xiA, xiB, l):
 
 
 def _run_mortar(g, tier, seed, rec):
+    for ra, _ in REL_ANGLES:
+        _run_mortar_one(dict(g, rel_angle=ra), tier, seed, rec)
+
+
+def _run_mortar_one(g, tier, seed, rec):
     import jax
     import jax.numpy as jnp
     from optimism.contact import MortarContact as MC
@@ -698,7 +709,7 @@ def _run_assemble(g, tier, seed, rec):
                                           dtype=jnp.float64),
                               jnp.asarray(MC.integrate_with_mortar(x[sb], x[sa], nf, lambda a, b, gg: gg, l),
                                           dtype=jnp.float64)])
-        return jnp.stack([jnp.stack([one(sB[i], sA[j]) for j in range(nA)]) for i in range(nB)])
+        return jax.vmap(lambda sb: jax.vmap(lambda sa: one(sb, sa))(sA))(sB)
 
     C = onp.stack([c[3] for c in cases])
     D = onp.stack([c[4] for c in cases])
@@ -871,8 +882,8 @@ def _run_levelset(g, tier, seed, rec):
     if not cases:
         return
 
-    # compiled batches (fixed length) per edge set: constraints, penalty constraints, energy
-    res_b = {}
+    # compiled single call and compiled batch (fixed length) per edge set: constraints, penalty constraints, energy
+    res_b, res_j = {}, {}
     try:
         for es, edges in edgesets.items():
             ej = jnp.asarray(edges)
@@ -885,13 +896,15 @@ def _run_levelset(g, tier, seed, rec):
             if not idx:
                 continue
             fb = jax.jit(jax.vmap(fn))
+            fj = jax.jit(fn)
             Us = onp.stack([cases[i][3] for i in idx])
             ks = onp.array([cases[i][2]["stiffness"] for i in idx])
             out = _batched(fb, [Us, ks], LSET_BATCH)
             for j, i in enumerate(idx):
                 res_b[i] = [o[j] for o in out]
+                res_j[i] = [onp.asarray(x) for x in fj(jnp.asarray(Us[j]), ks[j])]
     except Exception as e:  # noqa
-        rec.violation("levelset|batch|" + _xkey(e), cases[0][0], {"error": repr(e)})
+        rec.violation("levelset|compiled|" + _xkey(e), cases[0][0], {"error": repr(e)})
         for c in cases:
             rec.case(c[0], outcome="exception")
         return
@@ -903,22 +916,27 @@ def _run_levelset(g, tier, seed, rec):
         pts = ref.sample_points(X, U, conns, edges, xi)
         phi = ref_ls(pts)
         scale = max(1.0, float(onp.max(onp.abs(pts))))
-        try:
-            Uj, ej = jnp.asarray(U), jnp.asarray(edges)
-            eager = [onp.asarray(LevelsetConstraint.compute_levelset_constraints(lib_ls, Uj, mesh, quad, ej)),
-                     onp.asarray(PenaltyContact.evaluate_contact_constraints(lib_ls, Uj, mesh, quad, ej)),
-                     onp.asarray(PenaltyContact.compute_total_penalty_contact_energy(lib_ls, Uj, mesh, quad, ej, k))]
-        except Exception as e:  # noqa
-            rec.violation("levelset|obstacle=%s|%s" % (ob.split("-")[0], _xkey(e)), cid, {"error": repr(e), "disp": U})
-            rec.case(cid, outcome="exception")
-            continue
+        modes = [("jit", res_j[i]), ("batch", res_b[i])]
+        # direct (un-compiled) calls, as the library's tests make them, on the sub-product field=rigid x edges=face
+        if values["field"] == "rigid" and values["edges"] == "face":
+            try:
+                Uj, ej = jnp.asarray(U), jnp.asarray(edges)
+                modes.append(("eager", [
+                    onp.asarray(LevelsetConstraint.compute_levelset_constraints(lib_ls, Uj, mesh, quad, ej)),
+                    onp.asarray(PenaltyContact.evaluate_contact_constraints(lib_ls, Uj, mesh, quad, ej)),
+                    onp.asarray(PenaltyContact.compute_total_penalty_contact_energy(lib_ls, Uj, mesh, quad, ej, k))]))
+            except Exception as e:  # noqa
+                rec.violation("levelset|obstacle=%s|%s" % (ob.split("-")[0], _xkey(e)), cid,
+                              {"error": repr(e), "disp": U})
+                rec.case(cid, outcome="exception")
+                continue
         outcome = None
-        for mode, (c1, c2, E) in (("eager", eager), ("batch", res_b[i])):
+        for mode, (c1, c2, E) in modes:
             E = float(E)
 
             def fail(routine, sig, extra):
-                rec.violation("%s|obstacle=%s|%s" % (routine, ob.split("-")[0], sig), cid,
-                              dict(mode=mode, labels=dict(labels), obstacle=params, disp=U, edges=edges,
+                rec.violation("%s|%s" % (routine, sig), cid,
+                              dict(mode=mode, labels=dict(labels), obstacle_kind=ob, obstacle=params, disp=U, edges=edges,
                                    quad_degree=deg, phi_ref=phi, **extra))
 
             for routine, c in (("compute_levelset_constraints", c1), ("evaluate_contact_constraints", c2)):
@@ -942,15 +960,16 @@ def _run_levelset(g, tier, seed, rec):
                 if E != 0.0:
                     fail("compute_total_penalty_contact_energy", "nonzero-without-penetration",
                          {"energy": E, "min_phi_ref": float(phi.min())})
-            if mode == "eager":
+            if mode == "jit":
                 touching = bool(onp.any(phi == 0.0))
                 outcome = "penetrating" if pen else ("ambiguous" if amb else ("touching" if touching else "clear"))
                 rec.branch("penalty:min(0,phi)-%s" % ("active" if pen else "inactive"))
-                for s in sorted({int(e[1]) for e in edges}):
-                    rec.branch("surface:local-side-%d" % s)
+                for s_ in sorted({int(e[1]) for e in edges}):
+                    rec.branch("surface:local-side-%d" % s_)
         rec.case(cid, nontrivial=outcome in ("penetrating", "touching", "ambiguous"), outcome="levelset:" + outcome,
-                 steps=6, sample=({"case": cid, "obstacle": params, "disp": U, "phi_ref_min": float(phi.min()),
-                                   "energy": float(eager[2])} if i in sample_ids else None))
+                 steps=3 * len(modes), sample=({"case": cid, "obstacle": params, "disp": U,
+                                                "phi_ref_min": float(phi.min()), "energy": float(res_j[i][2])}
+                                               if i in sample_ids else None))
 
 
 # ================================================================================================ contact
@@ -974,6 +993,7 @@ def _two_blocks():
 
 
 def _run_contact(g, tier, seed, rec):
+    import jax
     import jax.numpy as jnp
     from optimism import QuadratureRule
     from optimism.contact import Contact
@@ -983,68 +1003,80 @@ def _run_contact(g, tier, seed, rec):
     conns = onp.asarray(mesh.conns)
     surfM = onp.asarray(mesh.sideSets["top1"])
     surfI = onp.asarray(mesh.sideSets["bottom2"])
-    sx = float(g["shift"])
-    axes = [Axis("depth", DEPTHS), Axis("maxNeighbors", [("1", 1), ("2", 2), ("3", 3)]),
-            Axis("quad", [("2", 2), ("3", 3)]), Axis("tilt", [("0", 0.0), ("5deg", 5.0)])]
-    sample_ids = set(pick(range(48), seed, 1))
+    sM, sI = jnp.asarray(surfM), jnp.asarray(surfI)
+    maxn = int(g["maxNeighbors"])
+    axes = [Axis("quad", [("2", 2), ("3", 3)]), Axis("shift", [("0", 0.0), ("0.3", 0.3), ("0.8", 0.8), ("1.5", 1.5)]),
+            Axis("depth", DEPTHS), Axis("tilt", [("0", 0.0), ("5deg", 5.0)])]
+    compiled = {}
+    sample_ids = set(pick(range(64), seed, 1))
     for ic, (cid0, labels, values) in enumerate(product(axes)):
-        cid = "contact;shift=%s;%s" % (g["shift"], cid0)
+        cid = "contact;maxNeighbors=%d;%s" % (maxn, cid0)
         if not rec.want(cid):
             continue
         U = onp.zeros_like(X)
         R = ref.rot(math.radians(values["tilt"]))
         c2 = onp.array([0.5, 1.0])
-        U[n1:] = (X[n1:] - c2) @ (R - onp.eye(2)).T + onp.array([sx, -values["depth"]])
+        U[n1:] = (X[n1:] - c2) @ (R - onp.eye(2)).T + onp.array([values["shift"], -values["depth"]])
         deg = values["quad"]
         quad = QuadratureRule.create_quadrature_rule_1D(deg)
         xi, _ = ref.gauss01(ref.npts_for_degree(deg))
+
+        def fn(Uj, quad=quad):
+            il = Contact.get_potential_interaction_list(sM, sI, mesh, Uj, maxn)
+            return (il, Contact.compute_closest_distance_to_each_side(mesh, Uj, quad, il, sI),
+                    Contact.compute_q_coordinates(mesh, Uj, quad, sI))
         try:
-            Uj = jnp.asarray(U)
-            il = Contact.get_potential_interaction_list(jnp.asarray(surfM), jnp.asarray(surfI), mesh, Uj,
-                                                        values["maxNeighbors"])
-            dists = onp.asarray(Contact.compute_closest_distance_to_each_side(mesh, Uj, quad, il, jnp.asarray(surfI)))
-            qc = onp.asarray(Contact.compute_q_coordinates(mesh, Uj, quad, jnp.asarray(surfI)))
+            if deg not in compiled:
+                compiled[deg] = jax.jit(fn)
+            modes = [("jit", [onp.asarray(x) for x in compiled[deg](jnp.asarray(U))])]
+            # direct (un-compiled) calls, as the library's tests make them, on the sub-product shift=0.3 x tilt=0
+            if labels["shift"] == "0.3" and labels["tilt"] == "0":
+                modes.append(("eager", [onp.asarray(x) for x in fn(jnp.asarray(U))]))
         except Exception as e:  # noqa
             rec.violation("Contact|" + _xkey(e), cid, {"error": repr(e), "disp": U})
             rec.case(cid, outcome="exception")
             continue
-        il = onp.asarray(il)
         pts = ref.sample_points(X, U, conns, surfI, xi)
         scale = max(1.0, float(onp.max(onp.abs(X + U))))
-
-        def fail(routine, sig, extra):
-            rec.violation("Contact.%s|%s" % (routine, sig), cid,
-                          dict(labels=dict(labels), disp=U, interactionList=il, surfaceI=surfI, quad_degree=deg, **extra))
-
-        eq = float(onp.max(onp.abs(qc - pts))) if qc.shape == pts.shape else float("inf")
-        rec.track_max("contact: |q coordinates - ref sample points|", eq)
-        if not eq <= 1e-13 * scale:
-            fail("compute_q_coordinates", "differs-from-deformed-sample-points", {"returned": qc, "expected": pts})
         beyond = near = False
-        if dists.shape != pts.shape[:2]:
-            fail("compute_closest_distance_to_each_side", "shape", {"shape": list(dists.shape)})
-        else:
+        for mode, (il, dists, qc) in modes:
+
+            def fail(routine, sig, extra):
+                rec.violation("Contact.%s|%s" % (routine, sig), cid,
+                              dict(mode=mode, labels=dict(labels), disp=U, interactionList=il, surfaceI=surfI,
+                                   quad_degree=deg, **extra))
+
+            eq = float(onp.max(onp.abs(qc - pts))) if qc.shape == pts.shape else float("inf")
+            rec.track_max("contact: |q coordinates - ref sample points|", eq)
+            if not eq <= 1e-13 * scale:
+                fail("compute_q_coordinates", "differs-from-deformed-sample-points", {"returned": qc, "expected": pts})
+            if dists.shape != pts.shape[:2] or il.shape != (pts.shape[0], maxn, 2):
+                fail("compute_closest_distance_to_each_side", "shape", {"shape": list(dists.shape),
+                                                                        "interaction_list_shape": list(il.shape)})
+                continue
             for e in range(pts.shape[0]):
                 segs = ref.deformed_segments(X, U, conns, il[e])
                 for q in range(pts.shape[1]):
-                    p = pts[e, q]
-                    ds = [float(ref.distance_to_segment(s[0], s[1], p)) for s in segs]
+                    pq = pts[e, q]
+                    ds = [float(ref.distance_to_segment(sg[0], sg[1], pq)) for sg in segs]
                     dmin = min(ds)
                     closest = [k for k, d in enumerate(ds) if d <= dmin + 1e-12 * scale]
-                    sides = [float(ref.side_of_line(segs[k][0], segs[k][1], p)) for k in closest]
+                    sides = [float(ref.side_of_line(segs[k][0], segs[k][1], pq)) for k in closest]
                     err = abs(abs(float(dists[e, q])) - dmin)
                     rec.track_max("contact: ||closest distance| - ref| / scale", err / scale)
-                    det = {"edge": e, "q": q, "point": p, "returned": float(dists[e, q]), "expected_abs": dmin,
+                    det = {"edge": e, "q": q, "point": pq, "returned": float(dists[e, q]), "expected_abs": dmin,
                            "candidate_segments": segs}
                     if not err <= 1e-12 * scale:
                         fail("compute_closest_distance_to_each_side", "magnitude-wrong", det)
-                    elif all(abs(s) > 1e-10 * scale for s in sides) and len({s > 0 for s in sides}) == 1:
+                    elif all(abs(sd) > 1e-10 * scale for sd in sides) and len({sd > 0 for sd in sides}) == 1:
                         if (float(dists[e, q]) > 0) != (sides[0] > 0):
                             fail("compute_closest_distance_to_each_side", "sign-wrong", det)
-                    s_line = float(ref.closest_point_segment(segs[closest[0]][0], segs[closest[0]][1], p)[2])
-                    beyond = beyond or not (0.0 <= s_line <= 1.0)
-                    near = near or dmin <= 1e-9
-                    rec.branch("contact:closest-%s" % ("beyond-end" if not (0.0 <= s_line <= 1.0) else "interior"))
+                    if mode == "jit":
+                        s_line = float(ref.closest_point_segment(segs[closest[0]][0], segs[closest[0]][1], pq)[2])
+                        beyond = beyond or not (0.0 <= s_line <= 1.0)
+                        near = near or dmin <= 1e-9
+                        rec.branch("contact:closest-%s" % ("beyond-end" if not (0.0 <= s_line <= 1.0) else "interior"))
         rec.case(cid, nontrivial=beyond or near,
                  outcome="contact:%s%s" % ("beyond-end" if beyond else "interior", "/near" if near else ""),
-                 steps=3, sample=({"case": cid, "disp_block2": U[n1], "dists": dists} if ic in sample_ids else None))
+                 steps=3 * len(modes),
+                 sample=({"case": cid, "disp_block2": U[n1], "dists": modes[0][1][1]} if ic in sample_ids else None))
